@@ -37,7 +37,7 @@ def sha256_bytes(b):
 
 # --------------------------------------------------------------------------- Verus units
 
-CANARY = "\nverus!{ proof fn vx_canary() ensures false {} }\n"
+CANARY = "\nverus!{\nproof fn vx_canary() ensures false {}\n}\n"
 FN_RE = re.compile(r"^\s*(?:pub(?:\([a-z]+\))?\s+)?(?:(?:open|closed|broadcast|uninterp|const)\s+)*(?:(?:proof|spec|exec)\s+)?fn\s+([A-Za-z_][A-Za-z0-9_]*)")
 
 
@@ -303,6 +303,8 @@ def run_witness(u, repo, bdir):
         except subprocess.TimeoutExpired:
             out, rc = "witness search timed out", 0
         wit = [l[l.index("WITNESS "):] for l in out.split("\n") if "WITNESS " in l]
+        n_wit = len(wit)
+        wit = wit[:6] + ([f"... and {n_wit - 6} more WITNESS lines"] if n_wit > 6 else [])
         return {"found": bool(wit), "witness_lines": wit, "output": out[-6000:], "cmd": " ".join(cmd), "rc": rc}
     finally:
         shutil.rmtree(sc, ignore_errors=True)
